@@ -167,6 +167,61 @@ def auto_flush_failure(run, seen, quick):
                                                   "recovery output": (lg or (p[1][1] if len(p[1]) > 1 else ""))[:300], "k": k, "kind": kind, "persistent": persist}))
 
 
+def same_name_recovery(run, seen, quick):
+    """the natural retry: after the failure of a named output was reported, the application rotates to the SAME name and writes
+    the block again - the file that finally carries the name must be exactly the complete new output (nothing of the failed
+    attempt's temporary file in front of it or behind it)"""
+    import random as _r
+    noise = _r.Random(16)
+    blob = {i: bytes(noise.randrange(256) for _ in range(40000)).hex() for i in (1, 2)}       # (does not compress: the compressors hand data down early)
+    q = lambda i, n: "Q:cport=%d,qn=x%s" % (i, blob[i][:2 * n])
+    scen = [(c, n) for c in ("n", "g", "x") for n in ((3000, 20000) if quick else (10, 3000, 9000, 20000, 40000))]
+    def script(c, n):
+        return "BP:tps=1000,max=1000 X:nm:%s %s %s C W C R:same:0 C W C R:nm:0 C D" % (c, q(1, n), q(2, n))
+    base = run_os(["os full " + script(*sc) for sc in scen])
+    lines, metas = [], []
+    for sc, b in zip(scen, base):
+        pb = parse(b)
+        if pb is None:
+            continue
+        for k in range(1, pb[2] + 1):
+            for kind in ("enospc", "short"):
+                lines.append("os fault %d %s 0 %s" % (k, kind, script(*sc))); metas.append((sc, k, kind))
+    answers = run_os(lines)
+    parsed = [parse(a) for a in answers]
+    lean_lines, idx = [], []
+    for j, (m, p) in enumerate(zip(metas, parsed)):
+        # outputs: [first attempt (snapshot at the rotation), the retry under the same name, the output after it]
+        if p and len(p[1]) >= 2 and p[1][1] not in ("-", "MISSING", "NONE") and not p[1][1].startswith("PART:"):
+            data, err = E.decompress(p[1][1], m[0][0])
+            lean_lines.append("cdns " + (data.hex() if data else "00")); idx.append(j)
+    lean_of = dict(zip(idx, G.run_driver(lean_lines))) if run.driver_ok and lean_lines else {}
+    for j, ((sc, k, kind), p, line) in enumerate(zip(metas, parsed, lines)):
+        tag = "nm/%s" % {"n": "plain", "g": "gzip", "x": "xz"}[sc[0]]
+        if p is None or p[3] == 0:
+            continue
+        run.case(("same-name", tag, k, kind), True); run.count("recovery by rotating to the same name")
+        api = p[0]
+        # Q Q C W C R C W C R C   (11 results): W = api[3], retry rotation = api[5], retry W = api[7], closing rotation = api[9]
+        if len(api) != 11:
+            continue
+        failed_first = api[3].startswith("E:") or api[5].startswith("E:")
+        if not failed_first or api[7].startswith("E:") or api[7] == "0" or api[9].startswith("E:"):
+            continue
+        if api[5].startswith("E:"):
+            continue          # the rotation itself reported the failure: whether it had switched already is the main scenarios' subject
+        run.count("retry under the same name returned normally: the named file must be the complete retry")
+        lg = lean_of.get(j)
+        ok = lg is not None and not lg.startswith("S invalid") and all(("cport=%d," % i) in lg or ("cport=%d}" % i) in lg for i in (1, 2))
+        if not ok:
+            sig = "fault:same-name-retry-corrupt:" + tag
+            if sig not in seen:
+                seen.add(sig)
+                run.spec_fail.append((sig, line, {"why": "write_block() failed, rotate_output(same name, false) and the second write_block() and the closing "
+                                                         "rotation returned normally, yet the file carrying the name is not the complete valid retry",
+                                                  "api results": " ".join(api), "validator": (lg or "")[:300], "k": k, "kind": kind}))
+
+
 def refused_destination(run, seen):
     """the failure is a destination that cannot be opened (invalid descriptor / missing directory): rotate_output throws; whatever
     is attempted meanwhile, a later rotation to a healthy destination succeeds and the next block write produces a complete valid
@@ -457,6 +512,7 @@ def check(run):
     refused_destination(run, seen)
     written_between_rotations(run, seen, quick)
     auto_flush_failure(run, seen, quick)
+    same_name_recovery(run, seen, quick)
     run.exhaustive = True
     run.extra["exhaustive_over"] = "fault points k of every scenario"
 
